@@ -240,6 +240,28 @@ let run_mon_provider args lines =
      | _ -> failwith "mon-provider: first operation must be HOSTNAME")
   | _ -> failwith "mon-provider: short trace"
 
+(* browsers: NEW c<k> cache / NEW <j> browser <type> <c<k>|-> / CADD c<k> rec j / CLOOKUP c<k> name type / JITTER j *)
+let browser_ops lines =
+  let ncaches = ref 0 and names = Hashtbl.create 7 in
+  let idx c = try Hashtbl.find names c with Not_found -> failwith ("unknown cache " ^ c) in
+  let api ws l =
+    match ws with
+    | ["NEW"; c; "cache"] -> Hashtbl.replace names c !ncaches; incr ncaches; BNewCache
+    | ["NEW"; _; "browser"; ty; c] ->
+      if c = "-" then (incr ncaches; BNewBrowser (bstr_of_tok ty, None))
+      else BNewBrowser (bstr_of_tok ty, Some (nat_of_int (idx c)))
+    | ["JITTER"; j] -> BJitter (z_of_int (int_of_string j))
+    | ["CADD"; c; r; j] -> BCadd (nat_of_int (idx c), record_of_tok r, z_of_int (int_of_string j))
+    | ["CLOOKUP"; c; n; ty] -> BLookup (nat_of_int (idx c), bstr_of_tok n, n_of_int (int_of_string ty))
+    | _ -> failwith ("browser operation: " ^ l) in
+  List.map (aop_of_line api) lines
+let run_browser lines = print_groups (world_run fuel_actor (browser_ops lines)); out_line "."
+
+let run_mon_browser args lines =
+  let tr = List.filter (fun (s, _) -> s <> "END") (group_trace (fun s -> s) out_of_line lines) in
+  let focus = match args with f :: _ -> int_of_string f | _ -> 0 in
+  print_verdict (mon_browser (n_of_int focus) (browser_ops (List.map fst tr)) (List.map snd tr))
+
 (* ---------------- main ---------------- *)
 let engines : (string * (string list -> string list -> unit)) list ref = ref []
 let register name f = engines := (name, f) :: !engines
@@ -254,6 +276,8 @@ let () =
   register "mon-hostname" run_mon_hostname;
   register "resolver" (fun _ lines -> run_resolver lines);
   register "provider" run_provider;
+  register "browser" (fun _ lines -> run_browser lines);
+  register "mon-browser" run_mon_browser;
   register "mon-provider" run_mon_provider;
   register "mon-resolver" (fun _ lines -> run_mon_resolver lines)
 
